@@ -72,8 +72,10 @@ func form(tag string) []string {
 		return []string{"(", "do", "(", "defmacro", "m", "(", "fn", "[", "x", "]", "(", "list", "'", "trace!", "x", ")", ")", ")", "(", "m", n, ")", ")"}
 	case 4:
 		return []string{"(", "try", "(", "throw", n, ")", "(", "catch", "e", "(", "trace!", "e", ")", ")", ")"}
-	case 5:
-		return []string{"(", "trace!", "'", "(", "a", ":k", "\"s;(\"", ")", ")"}
+	case 5: // string constants: with comment/bracket characters, raw strings with a CR LF pair inside, a tab
+		// (a quoted literal cannot hold a line break; a raw string can)
+		str := []string{"\"s;(\"", "¬a\r\nb¬", "¬{\"a\":\r\n1}¬", "\"\t ;\""}[vrt.Concrete(vrt.Choice(tag+"/str", 4))]
+		return []string{"(", "trace!", "'", "(", "a", ":k", str, ")", ")"}
 	case 6:
 		return []string{"(", "throw", "{", ":code", n, "}", ")"}
 	case 7: // the text of a caught arity error is part of what the program computes
@@ -101,6 +103,60 @@ func render(tag string, toks []string, max int) string {
 		s += t
 	}
 	return s
+}
+
+// build constructs the AST of a token sequence without the reader (the "AST built from Go" route):
+// lists, vectors, maps with keyword keys, quote, integers, keywords, strings, raw strings, symbols.
+func build(toks []string, pos int) (MalType, int) {
+	t := toks[pos]
+	seq := func(closer string) ([]MalType, int) {
+		var out []MalType
+		p := pos + 1
+		for toks[p] != closer {
+			var v MalType
+			v, p = build(toks, p)
+			out = append(out, v)
+		}
+		return out, p + 1
+	}
+	switch {
+	case t == "(":
+		el, p := seq(")")
+		return List{Val: el}, p
+	case t == "[":
+		el, p := seq("]")
+		return Vector{Val: el}, p
+	case t == "{":
+		el, p := seq("}")
+		m := map[string]MalType{}
+		for i := 0; i+1 < len(el); i += 2 {
+			m[el[i].(string)] = el[i+1]
+		}
+		return HashMap{Val: m}, p
+	case t == "'":
+		v, p := build(toks, pos+1)
+		return List{Val: []MalType{Symbol{Val: "quote"}, v}}, p
+	case t[0] == '"':
+		return t[1 : len(t)-1], pos + 1
+	case len(t) > 2 && t[0] == 0xC2 && t[1] == 0xAC: // ¬...¬
+		return t[2 : len(t)-2], pos + 1
+	case t[0] == ':':
+		return NewKeyword(t[1:]), pos + 1
+	case t[0] == '-' && len(t) > 1 || t[0] >= '0' && t[0] <= '9':
+		n, neg := 0, false
+		for i := 0; i < len(t); i++ {
+			if t[i] == '-' {
+				neg = true
+			} else {
+				n = n*10 + int(t[i]-'0')
+			}
+		}
+		if neg {
+			n = -n
+		}
+		return n, pos + 1
+	}
+	return Symbol{Val: t}, pos + 1
 }
 
 func strip(v MalType) MalType {
@@ -225,8 +281,12 @@ func Harness_routes() {
 	maxFill := vrt.Param("fill", 1)
 	nforms := 1 + vrt.Concrete(vrt.Choice("nforms", vrt.Param("forms", 2)))
 	var texts []string
+	built := []MalType{Symbol{Val: "do"}}
 	for i := 0; i < nforms; i++ {
-		texts = append(texts, render("t"+string(rune('0'+i)), form("f"+string(rune('0'+i))), maxFill))
+		toks := form("f" + string(rune('0'+i)))
+		texts = append(texts, render("t"+string(rune('0'+i)), toks, maxFill))
+		b, _ := build(toks, 0)
+		built = append(built, b)
 	}
 	// the sequence of forms as a file would contain them, with layout before, between and after
 	body := filler("pre", maxFill, false)
@@ -253,7 +313,7 @@ func Harness_routes() {
 	v0, err0 := lisp.EVAL(ctx, ast0, e0)
 	base := finish(e0, v0, err0)
 
-	route := vrt.Concrete(vrt.Choice("route", 5))
+	route := vrt.Concrete(vrt.Choice("route", 6))
 	e := env.NewSubordinateEnv(Base)
 	Trace = nil
 	switch route {
@@ -282,6 +342,9 @@ func Harness_routes() {
 			}
 		}
 		compare("forms fed one by one", base, finish(e, last, lerr), true)
+	case 4: // R5: the AST built from Go without the reader
+		v, eerr := lisp.EVAL(ctx, List{Val: built}, e)
+		compare("AST built from Go without the reader", base, finish(e, v, eerr), true)
 	default: // R6: load-file of the file text
 		vrt.SetFile("vrt_prog.lisp", fileText)
 		_, eerr := lisp.EVAL(ctx, List{Val: []MalType{Symbol{Val: "load-file"}, "vrt_prog.lisp"}}, e)
@@ -291,3 +354,7 @@ func Harness_routes() {
 	}
 	vrt.Reach("end")
 }
+
+// Harness_routes_plain: the same relation without symbolic layout (parameter fill=0), so that every
+// pair of forms crossed with every route is covered exhaustively.
+func Harness_routes_plain() { Harness_routes() }
